@@ -189,6 +189,8 @@ func osTemplates() []osTemplate {
 		// a file that also exists on the real machine, renamed to another
 		// directory (another mount, under the VirtualOS, which refuses that)
 		{Name: "os.rename#real-name", Covers: "os.rename", Body: `os.mkdir_all("` + c12RealDir() + `"); os.mkdir_all("/data"); os.write_file("` + c12RealDir() + `/real-sentinel.txt", "virt-content"); try(func() { os.rename("` + c12RealDir() + `/real-sentinel.txt", "/data/moved.txt") }, func(e) { return 0 }); return string(try(func() { return os.read_file("/data/moved.txt") }, func(e) { return "no-file" }))`, Contains: []string{"virt-content"}, VosContains: []string{"no-file"}, Methods: []string{"Rename"}, Failable: true, ExitCode: -1},
+		// a directory whose path is a regular file on the real machine
+		{Name: "os.chdir#real-name", Covers: "os.chdir", Body: `os.mkdir_all("` + c12RealDir() + `/real-sentinel.txt"); os.chdir("` + c12RealDir() + `/real-sentinel.txt"); return "in-place:" + string(os.getwd() == "` + c12RealDir() + `/real-sentinel.txt")`, Contains: []string{"in-place:true"}, VosContains: []string{"in-place:true"}, Methods: []string{"MkdirAll", "Chdir"}, Failable: true, ExitCode: -1},
 		// a file object the host made itself (with its own context, which
 		// carries no OS) and handed to the script
 		{Name: "file.stat#host-made-closed", Covers: "file.stat", Body: `hostfile.close(); return string(try(func() { return hostfile.stat().size }, func(e) { return "stat-refused" }))`, Contains: []string{"stat-refused"}, Methods: []string{"File.Close"}, Failable: true, ExitCode: -1},
